@@ -200,6 +200,17 @@ pub assume_specification<'a>[ naga::Module::to_ctx ](m: &'a naga::Module) -> (r:
 pub assume_specification[ naga::TypeInner::size ](t: &naga::TypeInner, c: naga::proc::GlobalCtx<'_>) -> (r: u32)
     ensures r == type_size(ctx_module(c), *t);
 
+// ---------------- handle equality ----------------
+pub assume_specification<T>[ <naga::Handle<T> as PartialEq>::eq ](a: &naga::Handle<T>, b: &naga::Handle<T>) -> (r: bool)
+    ensures r == (*a == *b);
+// `Option<Handle<T>> == Option<Handle<T>>`: vstd declares Option's eq without a postcondition; the extracted code calls
+// `.shim_opt_eq(..)` where /repo writes `== Some(*h)` (unit-wide mechanical rewrite)
+pub trait ShimOptEq: Sized { fn shim_opt_eq(self, other: Self) -> (r: bool) ensures r == (self == other); }
+impl<T> ShimOptEq for Option<naga::Handle<T>> {
+    #[verifier::external_body]
+    fn shim_opt_eq(self, other: Self) -> (r: bool) { self == other }
+}
+
 // ---------------- derived PartialEq of naga enums is structural equality ----------------
 pub assume_specification[ <naga::ShaderStage as PartialEq>::eq ](a: &naga::ShaderStage, b: &naga::ShaderStage) -> (r: bool)
     ensures r == (*a == *b);
